@@ -17,6 +17,8 @@ EXPLANATION = (
   "the patterns SmpteTimeCode.parse / ClockTime.parse try, in their order, with every named group recovering the printed field. "
   "The numeric identities (frames->label->frames, drop-frame skipping, monotonicity, 0.5 ms bound) are not decided."
   " (STATE-alias / STATE-global) no function of the anchored modules mutates a module- or class-level container, rebinds module / class state or mutates a mutable default argument, so a result never depends on earlier calls;"
+  " (FIN-dropcount) for every rate counted in drop-frame mode, 9 x (labels dropped per minute) equals the label excess per ten minutes to within 1/20 frame;"
+  " (FIN-dropframe) from_frames / to_frames agree with SMPTE ST 12-1 labels around every minute boundary of the first 22 minutes and the hour (30000/1001, 60000/1001) and are inverse there;"
 )
 RULE_TEXT = "EXA: one instance per truncation / time sink call site; FMT: one instance per printer branch x separator choice x sample vector"
 UNDECIDED = ["frames -> label -> frames identity", "label validity and drop-frame label skipping", "monotonicity of successive frame counts",
